@@ -222,8 +222,45 @@ func init() {
 				form.Set("client_id", cid)
 				form.Set("code_verifier", a.Verifier+"x")
 			}
+		case "tokenother":
+			// the code is redeemed by ANOTHER registered client, with everything else right (redirect, verifier, that client's own secret)
+			if a.Client == "" {
+				return nil
+			}
+			var other *vfOIDCClient
+			for i := range vfOIDCClients {
+				c := &vfOIDCClients[(i+int(st.N))%len(vfOIDCClients)]
+				if c.ID != a.Client && (c.Secret == "") == (vfClient(a.Client) != nil && vfClient(a.Client).Secret == "") {
+					other = c
+					break
+				}
+			}
+			if other == nil {
+				return nil
+			}
+			form := url.Values{"grant_type": {"authorization_code"}, "code": {a.Value}, "redirect_uri": {a.Redirect}}
+			r = &vfReq{Method: "POST", Path: "/idp/oauth2/token", Form: form, Header: map[string]string{}}
+			if other.Secret != "" {
+				r.Basic = &[2]string{other.ID, other.Secret}
+			} else {
+				form.Set("client_id", other.ID)
+			}
+			if a.Verifier != "" {
+				form.Set("code_verifier", a.Verifier)
+			}
 		case "userinfo":
 			r = &vfReq{Method: "GET", Path: "/idp/oauth2/userinfo", Header: map[string]string{"Authorization": "Bearer " + a.Value}}
+		case "clisendother":
+			// a CLI token handed to the browser session of another user
+			otherUser := "bob"
+			if a.Subject == "bob" {
+				otherUser = "alice"
+			}
+			ck := w.setupCookie(otherUser)
+			r = &vfReq{Method: "GET", Path: "/sendAuthDocument?port=4000&token=" + url.QueryEscape(a.Value), Cookies: map[string]string{authCookieName: ck}, Header: map[string]string{}}
+		case "storageother":
+			p.env = func() { w.presentStorageAs(a, true) }
+			return p
 		case "cliverify":
 			r = &vfReq{Method: "GET", Path: "/verifyAuthToken?token=" + url.QueryEscape(a.Value), Header: map[string]string{}}
 		case "clisend":
@@ -366,10 +403,26 @@ func (w *vfWorld) forge(st vfStep) {
 }
 
 // presentStorage: the artefact is put where a signed storage record lives and read through GetSigned
-func (w *vfWorld) presentStorage(a *vfArtefact) {
+func (w *vfWorld) presentStorage(a *vfArtefact) { w.presentStorageAs(a, false) }
+
+// other: the record is filed under another user's name
+func (w *vfWorld) presentStorageAs(a *vfArtefact, other bool) {
 	user := a.Subject
 	if user == "" {
 		user = "alice"
+	}
+	if other {
+		if user == "bob" {
+			user = "alice"
+		} else {
+			user = "bob"
+		}
+		w.rawExec(profileDBFilename, "INSERT OR REPLACE INTO expiring_signed_user_data(username,type,jws_data,expiration_epoch,update_epoch) VALUES(?,7,?,?,?)",
+			user, a.Value, time.Now().Add(time.Hour).Unix(), time.Now().Unix())
+		ok, _, err := w.state.GetSigned(user, 7)
+		w.judgePresent(a, "storageother", ok && err == nil, false, nil)
+		w.rawExec(profileDBFilename, "DELETE FROM expiring_signed_user_data WHERE type=7 AND username=?", user)
+		return
 	}
 	w.rawExec(profileDBFilename, "INSERT OR REPLACE INTO expiring_signed_user_data(username,type,jws_data,expiration_epoch,update_epoch) VALUES(?,9,?,?,?)",
 		user, a.Value, time.Now().Add(time.Hour).Unix(), time.Now().Unix())
@@ -407,6 +460,8 @@ func (w *vfWorld) judgePresent(a *vfArtefact, consumer string, honoured, expect 
 			cls = "claim-ignored"
 		case a.Forged == "" && !time.Now().Before(a.Exp) && vfKindFits(a.Kind, consumer):
 			cls = "expired-accepted"
+		case a.Forged == "" && (consumer == "storageother" || consumer == "tokenother" || consumer == "clisendother"):
+			cls = "honoured-for-other-party" // authentic and of the right kind, but bound to another user / client
 		}
 		key := cls + ":" + a.Kind + "->" + consumer
 		if strings.HasPrefix(a.Forged, "claim:") {
@@ -449,6 +504,12 @@ func tokenSetup(w *vfWorld) {
 		if pr := p.intent.Present; pr != nil {
 			w.observePresent(ctx, pr, resp)
 		}
+		// "rejected without side effects": a refusal that hands out a session is a side effect
+		for _, v := range w.res.Violations {
+			if v.Prop == "C05" && v.Step == w.stepIdx && v.Class == "session-in-refusal" {
+				w.violate("C04", "refusal-with-side-effect", "refusal-with-side-effect:"+p.intent.Op, v.Detail)
+			}
+		}
 	})
 }
 
@@ -471,8 +532,11 @@ func (w *vfWorld) observeToken(ctx *vfReqCtx, tr *vfTokenReq, resp *vfResp) {
 		why = "unknown client"
 	case a.Client != tr.Client:
 		why = "code was issued to " + a.Client
-	case time.Now().After(a.Exp):
+	case time.Now().After(a.Exp.Add(time.Second)):
 		why = "code expired"
+	case time.Now().After(a.Exp.Add(-time.Second)):
+		// token times are whole seconds: within a second of the five minutes either answer is right
+		judged = false
 	case !tr.SameRedirect:
 		why = "redirect_uri differs"
 	case cl.Secret != "":
@@ -600,8 +664,10 @@ func (w *vfWorld) observePresent(ctx *vfReqCtx, pr *vfPresent, resp *vfResp) {
 		if resp.Code == 401 && strings.Contains(string(resp.Body), "Not enough auth level") {
 			honoured = true // authenticated, only the level was insufficient
 		}
-	case "token":
+	case "token", "tokenother":
 		honoured = resp.Code == 200
+	case "clisendother":
+		honoured = resp.Code == 308
 	case "userinfo":
 		honoured = resp.Code == 200
 		if honoured {
@@ -666,9 +732,9 @@ func genTokenPlan(r *rand.Rand, tier, focus string) *vfPlan {
 	for i, s := range []string{"s1", "s2", "s3"} {
 		add(vfStep{Op: "login", Sess: s, User: users[i]})
 	}
-	clients := []string{"clientA", "clientB", "clientC"}
+	clients := []string{"clientA", "clientB", "clientC", "clientD"}
 	kinds := []string{"cookie", "code", "idtoken", "access", "clitoken", "storage"}
-	consumers := []string{"session", "sessionpost", "certgen", "token", "userinfo", "cliverify", "clisend", "storage"}
+	consumers := []string{"session", "sessionpost", "certgen", "token", "userinfo", "cliverify", "clisend", "storage", "tokenother", "clisendother", "storageother"}
 	forgeries := []string{"foreignkey", "none", "hs256", "hs256pem", "corrupt:header", "corrupt:payload", "corrupt:signature",
 		"claim:iss", "claim:aud", "claim:nbf", "claim:exp", "fclaim:sub", "fclaim:level", "fclaim:exp"}
 	n := 10 + r.IntN(16)
@@ -683,7 +749,7 @@ func genTokenPlan(r *rand.Rand, tier, focus string) *vfPlan {
 			cl := pick(r, clients)
 			l := []string{"redirect:" + pick(r, []string{"same", "same", "same", "other", "foreign"}), "nonce:" + pick(r, []string{"yes", "yes", "no", "short"})}
 			m := pick(r, []string{"S256", "S256", "none", "plain", "unknown", "nochallenge"})
-			if cl != "clientB" && chance(r, 0.7) {
+			if cl != "clientB" && cl != "clientD" && chance(r, 0.7) {
 				m = "nochallenge"
 			}
 			l = append(l, "method:"+m)
@@ -691,6 +757,24 @@ func genTokenPlan(r *rand.Rand, tier, focus string) *vfPlan {
 				l = append(l, "aud:https://api.b.example.com")
 			}
 			add(vfStep{Op: "oidc_authorize", Sess: s, A: cl, L: l})
+			if focus == "C12" && chance(r, 0.6) {
+				// the honest client goes on to redeem the code (sometimes another client tries, with everything else right)
+				by := cl
+				if chance(r, 0.2) {
+					by = pick(r, clients)
+				}
+				tl := []string{"secret:right", "verifier:absent", "redirect:same", "auth:" + pick(r, []string{"header", "form"})}
+				if m == "S256" || m == "plain" {
+					tl[1] = "verifier:right"
+				}
+				if c := vfClient(by); c != nil && c.Secret == "" {
+					tl[0] = "secret:absent"
+				}
+				if chance(r, 0.25) {
+					add(vfStep{Op: "advance", D: pick(r, []string{"1s", "3s", "4m59s", "5m1s"})})
+				}
+				add(vfStep{Op: "oidc_token", A: "last:code", B: by, L: tl})
+			}
 		case x < 45:
 			cl := pick(r, clients)
 			art := "last:code"
@@ -702,7 +786,7 @@ func genTokenPlan(r *rand.Rand, tier, focus string) *vfPlan {
 			}
 			l := []string{"secret:" + pick(r, []string{"right", "right", "wrong", "absent"}), "verifier:" + pick(r, []string{"absent", "absent", "right", "wrong"}),
 				"redirect:" + pick(r, []string{"same", "same", "same", "other"}), "auth:" + pick(r, []string{"header", "form"})}
-			if cl == "clientB" {
+			if cl == "clientB" || cl == "clientD" {
 				l[0] = "secret:absent"
 				l[1] = "verifier:" + pick(r, []string{"right", "right", "wrong", "absent"})
 			}
